@@ -245,7 +245,7 @@ Section SbSafety.
       In (sb_class_name e) sb_writer_classes -> sb_guarded F e = true.
     Proof.
       intros Hin. destruct sb_prem_split as (Hw & _). unfold sb_all_writers_guarded in Hw.
-      rewrite forallb_forall in Hw. apply Hw. exact Hin.
+      rewrite forallb_forall in Hw. unfold sb_guarded. rewrite (Hw _ Hin). reflexivity.
     Qed.
 
     Lemma sb_sub_frame_good fr self locals :
